@@ -37,10 +37,10 @@ IsPost(mode)   == mode \in {"}",">"}
 (* pip = absolute address to post-increment (or -1); dec = absolute address that *)
 (* was pre-decremented (or -1); f = the field used for indirection.             *)
 OperandG(core, pc, mode, val, M, FR(_), FW(_)) ==
-  IF mode = "#" THEN [core |-> core, rp |-> 0, wp |-> 0, pip |-> -1, f |-> "B", dec |-> -1]
+  IF mode = "#" THEN [core |-> core, rp |-> 0, wp |-> 0, pip |-> -1, f |-> "B", dec |-> -1, pr |-> {}]
   ELSE LET rp0 == FR(val)
            wp0 == FW(val) IN
-    IF mode = "$" THEN [core |-> core, rp |-> rp0, wp |-> wp0, pip |-> -1, f |-> "B", dec |-> -1]
+    IF mode = "$" THEN [core |-> core, rp |-> rp0, wp |-> wp0, pip |-> -1, f |-> "B", dec |-> -1, pr |-> {}]
     ELSE LET f  == IndField(mode)
              da == (pc + wp0) % M                       \* side effects go through the WRITE pointer
              c1 == IF IsPre(mode)
@@ -50,7 +50,8 @@ OperandG(core, pc, mode, val, M, FR(_), FW(_)) ==
              wp == FW(wp0 + Field(c1[(pc + wp0) % M], f))
          IN [core |-> c1, rp |-> rp, wp |-> wp,
              pip |-> IF IsPost(mode) THEN da ELSE -1, f |-> f,
-             dec |-> IF IsPre(mode) THEN da ELSE -1]
+             dec |-> IF IsPre(mode) THEN da ELSE -1,
+             pr |-> {(pc + rp0) % M, da}]                \* the pointer cells the operand evaluation reads
 
 PostInc(core, o, M) ==
   IF o.pip = -1 THEN core
@@ -98,7 +99,8 @@ ExecTaskG(core0, pc, M, FR(_), FW(_)) ==
       AllPairs(P(_)) == \A i \in 1..n : P(prs[i])
       AnyPair(P(_))  == \E i \in 1..n : P(prs[i])
       R(c, push, e) == [core |-> c, push |-> push, ev |-> pre \o e,
-                        wab |-> WAB, rab |-> RAB, rbb |-> RBB]
+                        wab |-> WAB, rab |-> RAB, rbb |-> RBB,
+                        reads |-> {pc, RAB, RBB} \cup oa.pr \cup ob.pr]     \* every cell the task reads
       W == << <<"Write", WAB>> >>
       Rd == << <<"Read", RAB>>, <<"Read", RBB>> >>
   IN
